@@ -18,7 +18,7 @@ def parse_logs(paths):
         if not os.path.exists(p):
             continue
         for line in open(p):
-            m = re.match(r"=== (C\d+) (m\d+) (verify|detect)", line)
+            m = re.match(r"=== (C\d+b?) (m\d+) (verify|detect)", line)
             if m:
                 cur = (m.group(1), m.group(2))
                 res.setdefault(cur, {"verify": None, "detect": {}})
